@@ -100,6 +100,7 @@ type fnInfo struct {
 	noCode   bool
 	skipInit bool
 	target   bool // belongs to the code under analysis (reported in the evidence)
+	syncOp   bool // a call to it from the code under analysis is a G2 scheduling point
 	instrs   int
 }
 
@@ -156,6 +157,7 @@ func (m *Machine) fnInfoOf(fn *ssa.Function) *fnInfo {
 		pkg = fn.Parent().Pkg
 	}
 	fi.target = pkg != nil && strings.HasPrefix(pkg.Pkg.Path(), m.TargetPrefix) && !strings.Contains(pkg.Pkg.Path(), "/zzverif")
+	fi.syncOp = isSyncOp(fn)
 	m.fnInfos.Store(fn, fi)
 	return fi
 }
@@ -284,6 +286,11 @@ func visitInstr(fr *frame, instr ssa.Instruction) continuation {
 
 	case *ssa.Call:
 		fn, args := prepareCall(fr, &instr.Call)
+		if fr.i.sched.g2budget > 0 && fr.info.target {
+			if sf, ok := fn.(*ssa.Function); ok && sf != nil && fr.i.fnInfoOf(sf).syncOp {
+				fr.i.sched.syncPoint()
+			}
+		}
 		fr.set(instr, call(fr.i, fr, instr.Pos(), fn, args))
 
 	case *ssa.ChangeInterface:
